@@ -39,6 +39,8 @@ ASSUMPTIONS = [
     "forward oracle trusts the transcription of the NIST tables shipped in thermocouples_reference (frozen JSON copy)",
     "inverse coefficients can only be judged through NIST's error bound (changes below the bound are invisible by definition)",
     "type B is not monotone below ~21 degC: increasing is only required where the reference is",
+    "inverse_error_profile is a regression oracle: vf/data/thermocouple_inverse_profile.json was measured on the pinned tree "
+    "(whose inverse functions pass the NIST bound per type); a bin may get 1.5 x + 0.0002 degC worse before it is reported",
 ]
 
 _TABLES = None
@@ -449,7 +451,53 @@ def check_long(case, rec):
                       '(%d samples wrong, the last wrong one is %d)' % (t, d, n, i, inp[i], got[i], want[i], len(bad), int(bad[-1])))
 
 
+PROFILE_BINS = 400
+PROFILE_GRID = 400000
+_PROFILE = None
+
+
+def inverse_profile(t):
+    """largest inverse error per voltage bin (PROFILE_BINS equal bins over the inverse function's voltage range)"""
+    lo, hi = INV_RANGE[t]
+    T = np.linspace(lo, hi, PROFILE_GRID)
+    E = ref_emf(t, T)
+    err = np.abs(np.asarray(tc(t).mv_to_celsius(E.copy()), dtype=np.float64) - T)
+    e_lo, e_hi = float(E.min()), float(E.max())
+    idx = np.minimum(((E - e_lo) / (e_hi - e_lo) * PROFILE_BINS).astype(np.int64), PROFILE_BINS - 1)
+    prof = np.zeros(PROFILE_BINS)
+    np.maximum.at(prof, idx, np.where(np.isnan(err), np.inf, err))
+    return prof
+
+
+def check_profile(case, rec):
+    """regression oracle: the error of the inverse function, bin by bin, against the frozen profile of the pinned tree"""
+    global _PROFILE
+    t = case['type']
+    rec.nontrivial(True)
+    rec.label('type=' + t, 'inverse_error_profile')
+    if _PROFILE is None:
+        _PROFILE = json.load(open(os.path.join(VERIF_DIR, 'vf', 'data', 'thermocouple_inverse_profile.json')))
+    frozen = np.array(_PROFILE['types'][t])
+    try:
+        now = inverse_profile(t)
+    except Exception as e:      # noqa
+        rec.violation('inverse:raised', describe_exc(e), key=exc_key(e))
+        return
+    bad = np.nonzero(~(now <= 1.5 * frozen + 2e-4))[0]
+    rec.maxstat('max_profile_ratio_' + t, float(np.max(now / np.maximum(frozen, 1e-6))))
+    if len(bad):
+        i = int(bad[np.argmax(now[bad] - frozen[bad])])
+        lo, hi = INV_RANGE[t]
+        E = ref_emf(t, np.array([lo, hi]))
+        v0 = E.min() + (E.max() - E.min()) * i / PROFILE_BINS
+        rec.violation('inverse_profile:' + t, 'type %s: in the voltage bin starting at %.4f mV the inverse error is %.5f degC, the '
+                      'reference profile of this function has %.5f degC there (%d of %d bins worse than 1.5 x + 0.0002)' % (
+                          t, v0, now[i], frozen[i], len(bad), PROFILE_BINS))
+
+
 def check(case, rec):
+    if case.get('profile'):
+        return check_profile(case, rec)
     if 'length' in case:
         return check_long(case, rec)
     if 'valid' in case:
@@ -478,6 +526,8 @@ def jobs(tier):
             Job('piece_boundaries', 'enum', _enum(bnds), exhaustive=True, check=check_boundaries,
                 note='every piece boundary and range end with +-1, +-2 ulp neighbours, scalar and array'),
             Job('scaling_points', 'hyp', point_case, n=6000 if tier == 'quick' else 100000, check=check_scaling),
+            Job('inverse_error_profile', 'enum', _enum([{'type': t, 'profile': True} for t in TYPES]), exhaustive=True,
+                check=check_profile, note='error of the inverse function per voltage bin (400 bins) against a frozen profile'),
             Job('long_arrays_through_scaling', 'enum',
                 _enum([{'type': t, 'direction': d, 'length': n} for t in TYPES for d in (0, 1)
                        for n in ((1023, 1024, 1025, 4096, 4097, 32768, 32769, 65535, 65536, 65537, 131072, 131073) if tier == 'quick'
